@@ -40,7 +40,7 @@ impl Script {
         }
         match self.events[i] {
             Ev::Frame { kind, bytes, len } => {
-                let payload = bytes[..len].to_vec();
+                let payload = vec_of(&bytes, len);
                 Ok(match kind {
                     0 => Frame::new_data(Cow::Owned(payload)),
                     1 => Frame::new_headers(Cow::Owned(payload)),
@@ -54,6 +54,26 @@ impl Script {
             Ev::Reset => Err(ProtoReadError::IO(IoReadError::Reset)),
             Ev::NotConnected => Err(ProtoReadError::IO(IoReadError::NotConnected)),
         }
+    }
+}
+
+/// `bytes[..len].to_vec()` with one allocation site per length, so that every allocation has a concrete size
+/// (a symbolic-size copy is what exhausts CBMC's memory, DESIGN §3)
+fn vec_of(bytes: &[u8; PAYLOAD_MAX], len: usize) -> Vec<u8> {
+    match len {
+        0 => Vec::new(),
+        1 => bytes[..1].to_vec(),
+        2 => bytes[..2].to_vec(),
+        3 => bytes[..3].to_vec(),
+        4 => bytes[..4].to_vec(),
+        5 => bytes[..5].to_vec(),
+        6 => bytes[..6].to_vec(),
+        7 => bytes[..7].to_vec(),
+        8 => bytes[..8].to_vec(),
+        9 => bytes[..9].to_vec(),
+        10 => bytes[..10].to_vec(),
+        11 => bytes[..11].to_vec(),
+        _ => bytes[..].to_vec(),
     }
 }
 
